@@ -1,5 +1,6 @@
 import PlinioVerif.Model.Proto
 import PlinioVerif.Props.C01
+import PlinioVerif.Props.C01Net
 import PlinioVerif.Props.C04
 import PlinioVerif.Props.C07
 import PlinioVerif.Props.C08
